@@ -22,7 +22,12 @@ THEOREMS = ["Uspsc.C02_reachable_safe", "Uspsc.C02_chain", "Uspsc.C02_trace_fifo
             "Uspsc.ustep_inv", "Uspsc.ustep_safe",
             "Obligations.unbounded_orders_ok", "Obligations.unbounded_structure_ok", "Obligations.C02_extracted",
             "Obligations.extraction_complete"]
-MODULES = ["QuillModel.Props.C02"]
+# shrink path (Props/C20Shrink.lean, shared with C20): reported capacity, nothing lost across a shrink, old node freed when drained, loop fuel
+THEOREMS += ["Uspsc.C02_nextPow2_spec", "Uspsc.C02_shrink_fuel_enough", "Uspsc.C02_dbl_fuel_enough", "Uspsc.C02_shrink_reports",
+             "Uspsc.C20_shrink_reported_capacity", "Uspsc.C20_shrink_at_most_half", "Uspsc.C20_shrink_noop",
+             "Uspsc.C20_shrink_capacity_one_degenerate", "Uspsc.C20_shrink_loses_nothing",
+             "Uspsc.C20_shrink_old_node_freed_after_drained", "Uspsc.urun_left_frozen"]
+MODULES = ["QuillModel.Props.C02", "QuillModel.Props.C20Shrink"]
 OBLIG = ["QuillModel.Obligations.UQueue", "QuillModel.Obligations.Queue"]
 
 # bundle M (tools/props/math_thm_M.py): MathUtilities.h + constructor / doubling loop / shrink capacities, attached to C02
